@@ -51,7 +51,7 @@ REQUIRED = ["pairs", "rotations", "translations", "scalings", "renumberings", "l
             "length_compared", "multisets_compared", "per_node_compared", "sholl_fixed_radii_compared",
             "sholl_steps_compared", "angles_compared", "orders_compared", "volume_compared",
             "small_extent_scalings", "file_sourced_trees", "tap_sholl_get"]
-FLOOR = {"quick": 500, "thorough": 10000}
+FLOOR = {"quick": 350, "thorough": 7000}
 SHARDS = {"quick": 8, "thorough": 16}
 TIMEOUT = {"quick": 400, "thorough": 3000}
 
